@@ -385,10 +385,17 @@ class Interp:
         for label, f in spec.invariant(self, env, 0):
             ctx.oblige(f'{tag}.init.{label}', f, kind='inv-init', line=node.lineno)
         n = it.length
+        # every variable the body assigns and the contract does not carry has an unknown value at the head of an arbitrary
+        # iteration and after the loop: poison it (a read is refused, a fresh assignment in the body clears it)
+        targets = assigned_names([node.target])
+        modified = {x for x in (assigned_names(node.body) | targets) if x not in spec.carried}
         mode = ctx.branch(ctx.fresh_bool(f'loop{ordn}_step'), node.lineno)
         if mode:
             k = ctx.fresh_int(f'loop{ordn}_k')
             ctx.assume(z3.And(k >= 0, to_z3(k < n)))
+            for name in modified - targets:
+                if env.has_local(name):
+                    env.set(name, LoopPoison(tag))
             for name, maker in spec.carried.items():
                 env.set(name, maker(self, env, k))
             self.inv_mode = 'assume'
@@ -414,6 +421,9 @@ class Interp:
             for label, f in spec.invariant(self, env, k + 1):
                 ctx.oblige(f'{tag}.step.{label}', f, kind='inv-step', line=node.lineno)
             raise PathDone()
+        for name in modified:
+            if env.has_local(name) or name in targets:
+                env.set(name, LoopPoison(tag))
         for name, maker in spec.carried.items():
             env.set(name, maker(self, env, n))
         self.inv_mode = 'assume'
@@ -434,6 +444,9 @@ class Interp:
         for label, f in spec.invariant(self, env, None):
             ctx.oblige(f'{tag}.init.{label}', f, kind='inv-init', line=node.lineno)
         mode = ctx.branch(ctx.fresh_bool(f'loop{ordn}_step'), node.lineno)
+        for name in assigned_names(node.body):
+            if name not in spec.carried and env.has_local(name):
+                env.set(name, LoopPoison(tag))
         for name, maker in spec.carried.items():
             env.set(name, maker(self, env, None))
         for label, f in spec.invariant(self, env, None):
@@ -877,6 +890,8 @@ class Interp:
                      self.eval(node.step, env) if node.step else None)
 
     def subscript(self, base, idx, line):
+        if isinstance(base, SOpt):
+            base = base.payload  # guarded by the `is not None` test of the optional on this path
         if isinstance(base, (STensor, np.ndarray)) and not (isinstance(base, np.ndarray) and is_concrete(idx)):
             return self.unit.np.index(self, as_tensor(base), idx, line)
         if isinstance(base, SFrame):
@@ -1363,7 +1378,31 @@ class BuiltinRef:
         self.name = name
 
 
+class LoopPoison:
+    """Value of a variable that a symbolic loop assigns but the loop contract does not describe (sound havoc: any read is refused)."""
+
+    def __init__(self, loop):
+        self.loop = loop
+
+
+def assigned_names(stmts):
+    out = set()
+    for st in stmts:
+        for n in ast.walk(st):
+            if isinstance(n, ast.Name) and isinstance(n.ctx, (ast.Store, ast.Del)):
+                out.add(n.id)
+    return out
+
+
 class Env:
+    def has_local(self, name):
+        e = self
+        while e is not None:
+            if name in e.vars:
+                return True
+            e = e.parent
+        return False
+
     def __init__(self, parent=None):
         self.vars = {}
         self.parent = parent
@@ -1375,7 +1414,10 @@ class Env:
         e = self
         while e is not None:
             if name in e.vars:
-                return e.vars[name]
+                v = e.vars[name]
+                if isinstance(v, LoopPoison):
+                    raise Unsupported(f'variable {name} is modified by loop {v.loop} but has no carried maker in the loop contract: its value here is unknown')
+                return v
             e = e.parent
         if hasattr(builtins, name):
             if name in ('None', 'True', 'False'):
